@@ -134,6 +134,9 @@ fn run_history(dir: &Path, mode: Mode, ops: &[Op], layer: &str, extra_sig: &[(&s
                 Ok(Ok(d2)) => d2,
             };
             let after = Dump::of(&d2);
+            if std::env::var("C05_TRACE").is_ok() {
+                eprintln!("  after {:<28} dump: {}", op.text(), after.brief());
+            }
             if dump_checks && after != before {
                 // name the mechanism: for every differing fact, the last operation of this life that changed it
                 let mut kinds: BTreeMap<(String, &'static str, String), Vec<String>> = BTreeMap::new();
@@ -210,6 +213,9 @@ fn run_history(dir: &Path, mode: Mode, ops: &[Op], layer: &str, extra_sig: &[(&s
             }
         }
         let d = Dump::of(db.as_ref().unwrap());
+        if std::env::var("C05_TRACE").is_ok() {
+            eprintln!("  after {:<28} err={:?} new={:?}/{:?} dump: {}", op.text(), o.err, o.new_nodes, o.new_edges, d.brief());
+        }
         out.effective.push((op.class(), d != prev));
         out.dumps.push(vcore::hash_of(&d));
         prev = d.clone();
